@@ -103,13 +103,33 @@ def gen(rng, kind, b):
                            "exp": mk_tensor(None, torch.int32, b + [1], 2).expand(*b, 3), "g": f32(3).requires_grad_()}, b)
     if kind == "rank0":
         return TensorDict({"a": torch.tensor(1.5), "n": {"x": torch.tensor(2), "z": torch.zeros(0)}}, [])
+    if kind.startswith("legacy-"):
+        # the lazy classes of `set_lazy_legacy(True)`: permute / transpose / unsqueeze / squeeze / view return a _CustomOpTensorDict over the
+        # source; saved as their source (`_source/`) + the operation in meta.json
+        from tensordict import set_lazy_legacy
+        b2 = b + [3]
+        src_td = TensorDict({"a": mk_tensor(None, torch.float32, b2 + [4], 0), "n": {"x": mk_tensor(None, torch.int64, b2, 1)}, "s": "txt"}, b2)
+        op = kind[7:]
+        with set_lazy_legacy(True):
+            if op == "permute":
+                return src_td.permute(*reversed(range(len(b2))))
+            if op == "transpose":
+                return src_td.transpose(0, len(b2) - 1)
+            if op == "unsqueeze":
+                return src_td.unsqueeze(1)
+            if op == "squeeze":
+                return TensorDict({"a": mk_tensor(None, torch.float32, [1] + b2 + [4], 0), "n": {"x": mk_tensor(None, torch.int64, [1] + b2, 1)}}, [1] + b2).squeeze(0)
+            if op == "view":
+                return src_td.view(-1)
+        raise ValueError(kind)
     if kind == "njt":
         nt = torch.nested.nested_tensor([torch.arange(3.0), torch.arange(5.0), torch.arange(2.0)][: b[0]], layout=torch.jagged)
         return TensorDict({"a": mk_tensor(None, torch.int32, [b[0], 2], 1), "j": nt}, [b[0]])
     raise ValueError(kind)
 
 
-KINDS = ["lazy", "lazy-nested", "tensorclass", "tensorclass-nested", "nontensor-stack", "views", "rank0", "lazy-dim1", "lazy-in-lazy"]
+KINDS = ["lazy", "lazy-nested", "tensorclass", "tensorclass-nested", "nontensor-stack", "views", "rank0", "lazy-dim1", "lazy-in-lazy",
+         "legacy-permute", "legacy-transpose", "legacy-unsqueeze", "legacy-squeeze", "legacy-view"]
 
 
 def run_ext(run, drv=None):
@@ -127,7 +147,7 @@ def run_ext(run, drv=None):
     try:
         with warnings.catch_warnings():
             warnings.simplefilter("ignore")
-            for it in range(36 if quick else 270):
+            for it in range(42 if quick else 280):
                 kind = KINDS[it % len(KINDS)]
                 b = [] if kind == "rank0" else rng.choice([[2], [3], [2, 2]] if kind not in ("njt",) else [[2], [3]])
                 if kind in ("lazy", "lazy-nested", "nontensor-stack") and it % 3 == 0:
@@ -144,7 +164,7 @@ def run_ext(run, drv=None):
                         case = {"kind": kind, "api": api, "num_threads": nt, "batch": b}
                         try:
                             with time_limit(180):
-                                src = td.clone() if api == "memmap_" else td
+                                src = (gen(rng, kind, b) if kind.startswith("legacy-") else td.clone()) if api == "memmap_" else td
                                 out = src.memmap(d, num_threads=nt, share_non_tensor=True) if api == "memmap(share_non_tensor)" else getattr(src, api)(d, num_threads=nt)
                                 got_saved = canon(out if out is not None else src, **OPTS)
                                 loaded = type(td).load_memmap(d) if kind == "tensorclass" else TensorDict.load_memmap(d)
@@ -184,6 +204,11 @@ def run_ext(run, drv=None):
                             return c[:3]
                         return [skeleton(x) for x in c]
                     return c
+                if kind.startswith("legacy-"):
+                    # memmap_like of a legacy lazy view hands back (and saves) a plain tensordict of the same keys / shapes: the class is not
+                    # kept, by construction (`empty_expand` goes through apply); not compared
+                    run.count("ext.like_skipped", kind)
+                    continue
                 d = root / f"x{it}_like"
                 run.case(("ext-like", it, kind))
                 try:
